@@ -116,6 +116,7 @@ type world struct {
 	blobLen map[string]int // digest -> length of every blob the case knows
 	limit   int
 	dInit   time.Duration
+	dMax    time.Duration // the largest back-off delay the client can apply (as configured)
 	nMirror int
 	cfaults []ClassFault
 	dupFirst bool // the first mirror is listed twice in the configuration
